@@ -6,7 +6,7 @@ import ast
 from .. import link
 from ..absint import Interp, Observer
 from ..cfg import CFG, ENTRY, EXIT
-from ..core import AnalysisError, norm, walk_no_nested
+from ..core import AnalysisError, names_in, norm, walk_no_nested
 from ..regionmodel import (REGION, SET_MUTATORS, RegionLib, assigns_cache,
                            direct_mutations,
                            is_cache_reset, levelset_owner, linear,
@@ -184,6 +184,9 @@ MUTANTS = [
     ("pixel ids cast to int32", "AegeanTools/regions.py",
      "pix = hp.ang2pix(2**self.maxdepth, theta, phi, nest=True)",
      "pix = hp.ang2pix(2**self.maxdepth, theta, phi, nest=True).astype(np.int32)", "C08-R10"),
+    ("add_pixels replaces the level set", "AegeanTools/regions.py",
+     "        self.pixeldict[depth].update(set(pix))",
+     "        self.pixeldict[depth] = set(pix)", "C08-R11"),
 ]
 TWINS = [
     ("shift instead of floor division", "AegeanTools/regions.py",
@@ -232,6 +235,7 @@ def run(ctx):
     # ------------------------------------------------------------- R8
     r8(ctx, ci)
     r9_cache_alias(ctx, ci, "C08-R9")
+    r11_add(ctx, ci)
     from .. import precision
     precision.rule(
         ctx, ctx.prog, "C08-R10",
@@ -1247,6 +1251,64 @@ def r9_cache_alias(ctx, ci, rule):
            "the cache checked for in-place updates" % n, True, {},
            aliasing[0][1])
     ctx.floor(rule, n, 6, "uses of Region.demoted / get_demoted()")
+
+
+def r11_add(ctx, ci):
+    ctx.rule("C08-R11", "add_pixels ADDS: the given pixels reach the level "
+             "set through update / |= on every path, and the only plain "
+             "assignment to a level set there creates a missing level "
+             "(guarded by `depth not in self.pixeldict`) -- replacing the "
+             "set would forget everything added before")
+    fi = ci.methods.get("add_pixels")
+    if fi is None:
+        raise AnalysisError("C08-R11: Region.add_pixels missing")
+    al = pixeldict_aliases(fi.node)
+    pixp = fi.params[1] if len(fi.params) > 1 else "pix"
+    derived = {pixp}
+    for _ in range(4):
+        for st in walk_no_nested(fi.node):
+            if isinstance(st, ast.Assign) and len(st.targets) == 1 and \
+                    isinstance(st.targets[0], ast.Name) and \
+                    names_in(st.value) & derived:
+                derived.add(st.targets[0].id)
+    g = CFG(fi.node)
+    adds = []
+    for n, st in g.stmt.items():
+        if g.kind[n] != "stmt":
+            continue
+        for c in ast.walk(st):
+            if isinstance(c, ast.Call) and \
+                    isinstance(c.func, ast.Attribute) and \
+                    c.func.attr in ("update",) and \
+                    levelset_owner(c.func.value, al) and c.args and \
+                    names_in(c.args[0]) & derived:
+                adds.append(n)
+        if isinstance(st, ast.AugAssign) and isinstance(st.op, ast.BitOr) \
+                and levelset_owner(st.target, al) and \
+                names_in(st.value) & derived:
+            adds.append(n)
+    ok = bool(adds) and g.path_avoiding(ENTRY, EXIT, set(adds)) is None
+    ctx.check("C08-R11", fi, "pixels are merged into the level set on every "
+              "path", ok, "a normal return of add_pixels is reached without "
+              "`<level set>.update(%s)`" % pixp, node=fi.node)
+    pm = {}
+    for x in ast.walk(fi.node):
+        for ch in ast.iter_child_nodes(x):
+            pm[ch] = x
+    for st in walk_no_nested(fi.node):
+        if isinstance(st, ast.Assign) and any(
+                levelset_owner(t, al) for t in st.targets):
+            par = pm.get(st)
+            guarded = isinstance(par, ast.If) and st in par.body and \
+                isinstance(par.test, ast.Compare) and \
+                isinstance(par.test.ops[0], ast.NotIn) and \
+                "pixeldict" in norm(par.test.comparators[0])
+            keeps = any(levelset_owner(x, al) for x in ast.walk(st.value)
+                        if isinstance(x, ast.Subscript))
+            ctx.check("C08-R11", fi, "assignment " + norm(st, 60),
+                      guarded or keeps,
+                      "%s replaces the level set: pixels added earlier at "
+                      "that depth are lost" % norm(st, 60), node=st)
 
 
 def _fmt(ab):
